@@ -363,14 +363,17 @@ Proof.
     + rewrite (cnt_kset_none key c (kids x1) c' Kg). lia.
 Qed.
 
-Lemma raw_delitem_ok : forall s t name s' e, Inv s -> raw_delitem true s t name = (s', e) ->
+Lemma raw_delitem_ok : forall s t name s' e, Inv s -> no_empty_name s -> raw_delitem true s t name = (s', e) ->
   Inv s' /\ stepm s s' /\ (forall e0, e = Some e0 -> s' = s).
 Proof.
-  intros s t name s' e I H. unfold raw_delitem in H.
+  intros s t name s' e I NE H. unfold raw_delitem in H.
   assert (TRIV : (s', e) = (s', e) -> s' = s -> Inv s' /\ stepm s s' /\ (forall e0, e = Some e0 -> s' = s))
     by (intros _ ->; split; [auto | split; [apply stepm_refl | auto]]).
   destruct (get s t) as [x|] eqn:Gt; [|inversion H; subst; auto]. apply get_Ok in Gt.
   destruct (kget name (kids x)) as [c|] eqn:Kg; [|inversion H; subst; auto].
+  assert (SL : self_lookup x t name c = c).
+  { unfold self_lookup. destruct (kind x) eqn:Kx; auto. destruct name; auto. rewrite (NE t x Gt Kx) in Kg. discriminate. }
+  rewrite SL in H.
   destruct (inval t s) as [s1|] eqn:E1; [|inversion H; subst; auto].
   pose proof (inval_some_lt _ _ _ E1) as Lt.
   destruct (inval_ok t s (I_wfp NH s (proj1 I)) Lt) as (s1' & E1' & RR1 & C1). rewrite E1 in E1'. inversion E1'; subst s1'.
@@ -580,10 +583,10 @@ Proof.
   destruct (dir_value_checks s k2 c); [|discriminate]. simpl in H. eapply raw_setitem_ok; eauto.
 Qed.
 
-Lemma delitem_ok : forall s p key s' e, Inv s -> delitem true s p key = (s', e) ->
+Lemma delitem_ok : forall s p key s' e, Inv s -> no_empty_name s -> delitem true s p key = (s', e) ->
   Inv s' /\ stepm s s' /\ (forall e0, e = Some e0 -> s' = s).
 Proof.
-  intros s p key s' e I H. unfold delitem in H.
+  intros s p key s' e I NE H. unfold delitem in H.
   assert (TRIV : s' = s -> Inv s' /\ stepm s s' /\ (forall e0, e = Some e0 -> s' = s))
     by (intros ->; split; [auto | split; [apply stepm_refl | auto]]).
   destruct (get s p) as [x|]; [|inversion H; subst; auto].
